@@ -17,7 +17,9 @@ HOSTNAME = 'vf_c14_host'
 def universe(tier, which):
     if which == 'single':
         n = 4
-        return list(ox.scripts(n, KINDS if tier == 'quick' else KINDS + ['Postfix'], root_kinds=ROOTK))
+        return (list(ox.scripts(n, KINDS if tier == 'quick' else KINDS + ['Postfix'], root_kinds=ROOTK))
+                # small graphs over a NaN leaf (x != x): a tree still equals itself and its copies that share the leaf
+                + list(ox.scripts(3, ['K1', 'K2', 'list', 'Infix'], leaves=[('nan',)], root_kinds=ROOTK)))
     # pairs
     if tier == 'quick':
         return list(ox.scripts(3, KINDS, root_kinds=ROOTK))
@@ -72,6 +74,42 @@ def chain_job(st):
     return res
 
 
+DOTTED = ['vf_c14_pkg.alpha', 'vf_c14_pkg.beta', 'vf_c14_pkg.sub.gamma', 'vf_c14_pkg.sub.delta', 'vf_c14_pkg.sub', 'vf_c14_pkg.alpha']
+
+
+def dotted_job(st):
+    """grammars installed under dotted names (first and later members of a package, a name that is also a package,
+    a recompiled name): objects pickle / copy / repr like those of any named grammar"""
+    res = {'ctr': {'cases': 0, 'nontrivial': 0, 'states': 0, 'transitions': 0}, 'sets': {}, 'viol': [], 'viol_keys': []}
+    sigs = set()
+    mods = []
+    for n in DOTTED:
+        b = impl.build(ox.HOST % ('grammar %s' % n))
+        if b[0] != 'OK':
+            viol(res, sigs, 'dotted COMPILE', (('dotted', n),), list(b))
+            return res
+        mods.append((n, b[1]))
+    # all modules exist before the first object is pickled; the first 'alpha' module has been replaced
+    for k, (n, g) in enumerate(mods[1:], 1):
+        for o in (g.K2.parse('23'), g.K1('1'), g.K0(), g.Infix(g.K1('1'), '+', [g.K0()])):
+            for name, f in (('repr', lambda: eval(repr(o), dict(vars(g))) == o),
+                            ('deepcopy', lambda: copy.deepcopy(o) == o),
+                            ('pickle', lambda: pickle.loads(pickle.dumps(o)) == o and type(pickle.loads(pickle.dumps(o))) is type(o))):
+                res['ctr']['cases'] += 1
+                res['ctr']['states'] += 1
+                res['ctr']['nontrivial'] += 1
+                try:
+                    why = None if f() else 'not equal'
+                except Exception as x:
+                    why = '%s' % type(x).__name__
+                if why:
+                    viol(res, sigs, 'dotted-%s %s' % (name, why), (('dotted', n, k, type(o).__name__),), why)
+    for n in ('vf_c14_pkg.alpha', 'vf_c14_pkg.beta', 'vf_c14_pkg.sub.gamma', 'vf_c14_pkg.sub.delta', 'vf_c14_pkg.sub', 'vf_c14_pkg'):
+        impl.uninstall(n)
+    res['sample'] = {'dotted': DOTTED}
+    return res
+
+
 def same_value(g, got, want):
     """got must be ==, !=-consistent and hash-equal to an independently built equal object"""
     if not ox.ref_eq(g, got, want):
@@ -118,6 +156,7 @@ def single_job(job, st):
         res['ctr']['states'] += 1
         fake = ('fake-position', idx)
         r._metadata.position_info = fake
+        hasnan = any(sp[0] == 'nan' for sp in script)
         snap = ox.snapshot(g, r)
         shared = len(set(i for s in script for i in s[1:] if isinstance(i, int))) < sum(1 for s in script for i in s[1:] if isinstance(i, int))
         if shared or any(s[0] in ('list', 'tuple', 'dict') for s in script):
@@ -138,6 +177,12 @@ def single_job(job, st):
         def t_eq():
             if not (r == r) or (r != r):
                 return 'not reflexive'
+            if hasnan:
+                # a second build holds other NaN objects (legitimately unequal); an object sharing the leaves is equal
+                r3 = type(r)(**r._asdict())
+                if not (r == r3 and r3 == r) or hash(r) != hash(r3):
+                    return 'object built from the same field values differs'
+                return None
             r2 = ox.construct(script, g)[-1]
             if not (r == r2 and r2 == r):
                 return 'fresh equal copy differs'
@@ -152,6 +197,8 @@ def single_job(job, st):
             if any(d[f] is not getattr(r, f) for f in d):
                 return 'values'
             # an attribute a user sets on a node is not a field
+            if hasnan:
+                return None
             r.user_note = 5
             try:
                 if list(r._asdict()) != list(ox.FIELDS[type(r).__name__]):
@@ -178,6 +225,16 @@ def single_job(job, st):
                         return 'metadata lost'
                     if ox.snapshot(g, r) != snap:
                         return 'original modified'
+                    # the copy is independent: its metadata is its own (writes on either side stay there)
+                    n._metadata.position_info = ('moved', f)
+                    n._metadata.note = 1
+                    if ox.snapshot(g, r) != snap:
+                        return 'metadata write on the copy shows on the original'
+                    r._metadata.other_note = 2
+                    leaked = 'other_note' in n._metadata._fields
+                    del r._metadata._fields['other_note']
+                    if leaked:
+                        return 'metadata write on the original shows on the copy'
                     # the result as a value: compare with an independently constructed object
                     d = dict(r._asdict())
                     d[f] = v
@@ -199,8 +256,13 @@ def single_job(job, st):
                 return 'metadata differs'
             if ox.snapshot(g, r) != snap:
                 return 'original modified'
-            return same_value(g, c, ox.construct(script, g)[-1])
+            c._metadata.note = 1
+            if ox.snapshot(g, r) != snap:
+                return 'metadata write on the copy shows on the original'
+            return same_value(g, c, r if hasnan else ox.construct(script, g)[-1])
         op('deepcopy', t_deepcopy)
+        if hasnan:
+            continue            # pickling and repr create new NaN objects
 
         def t_pickle():
             c = pickle.loads(pickle.dumps(r))
@@ -304,6 +366,8 @@ def pair_job(job, st):
 def dispatch(job, st):
     if job[0] == 'chain':
         return chain_job(st)
+    if job[0] == 'dotted':
+        return dotted_job(st)
     if job[0] == 'single':
         return single_job(job[1:], st)
     return pair_job(job[1:], st)
@@ -314,12 +378,12 @@ def run(tier, seed):
     chk.rule = ('object graphs given by construction scripts: all rooted DAGs with <=4 nodes over leaves {None, 1, interned str, '
                 'equal-but-distinct str} and containers/objects {list, tuple, dict, K0, K1, K2, M2, Infix, Prefix(, Postfix)} with every '
                 'child slot either new or a back-reference to any earlier node (all aliasing patterns); per root: reflexivity, '
-                'fresh-copy equality+hash, _asdict, every single-field _replace x 4 values, deepcopy, pickle, eval(repr); all ordered '
+                'fresh-copy equality+hash, _asdict, every single-field _replace x 4 values (metadata kept, and independent of the original in both directions), deepcopy, pickle, eval(repr); also <=3 nodes over NaN leaves; objects of a 3-level chain and of 6 grammars under dotted names (later members of a package, recompiled names): repr / deepcopy / pickle; all ordered '
                 'pairs (quick: <=3 nodes; thorough: <=4 nodes over a reduced alphabet) incl. parsed objects with real metadata vs '
                 'hand-built equals: == vs reference structural equality, symmetry, !=, hash; triples inside equality classes; '
                 'non-trivial = graphs with containers or sharing (single) / equal pairs (pairs)')
     chk.assumptions = ['reference structural equality vf/ox.py:ref_eq', 'CPython copy/pickle protocols']
-    jobs = [('chain',)] + [('single', tier, k) for k in range(NSLICES)] + [('pairs', tier, k) for k in range(NSLICES)]
+    jobs = [('chain',), ('dotted',)] + [('single', tier, k) for k in range(NSLICES)] + [('pairs', tier, k) for k in range(NSLICES)]
     chk.explore(dispatch, jobs, init=init, chunk=1, job_deadline=900)
     return chk.finish(floor=1000)
 
